@@ -271,8 +271,12 @@ def _deps():
     out = {}
     for pid in CHECKS:
         src = open(os.path.join(V, "checks", pid.lower() + ".py")).read()
-        m = re.search(r"    for dep in (\[[^\]]*\]):\n        chk.include\(dep\)", src)
-        out[pid] = eval(m.group(1)) if m else []
+        deps = []
+        for m in re.finditer(r"    for dep in ([\[(][^\])]*[\])]):\n        chk.include\(dep\)", src):
+            deps += list(eval(m.group(1)))
+        for m in re.finditer(r"chk.include\(\"(C\d\d)\"(, only=)?", src):
+            deps.append(m.group(1) + (" (part)" if m.group(2) else ""))
+        out[pid] = deps
     return out
 
 
